@@ -398,7 +398,8 @@ def run_cases(prop, cases, findings, batch=20000):
         for (c, ci, cm, dis), k in zip(pending_spec, owners):
             sr = spec_replies[sp:sp + k]
             sp += k
-            verdict = prop.oracle(c, ci, sr)
+            # correspondence-only cases: inputs outside the property's domain, compared with the model only
+            verdict = {"nontrivial": False, "tags": ["correspondence-only"]} if c.meta.get("corr_only") else prop.oracle(c, ci, sr)
             # verdict: dict(fail=None|str, nontrivial=bool, tags=[...])
             for t in verdict.get("tags", []):
                 dist[t] = dist.get(t, 0) + 1
